@@ -342,6 +342,60 @@ def rows_targets():
     return T
 
 
+FLOWS_HEADER = """(* GENERATED on every run by /verif/tools/translate.py from /repo/src/aspire/flows (working tree). Do not edit.
+   Base      : log-density of the underlying flow on its own (latent-data) space        (zuko / flowjax: trusted)
+   Tfwd_*    : data_transform.forward  = (rescaled point, log|det J|)                     (property C04)
+   Tinv_*    : data_transform.inverse  = (native point,   log|det J|) *)
+From Coq Require Import Reals List Bool.
+From AV Require Import Lib.Vec.
+Import ListNotations.
+Open Scope R_scope.
+
+Section Flows.
+  Context {X Z : Type}.
+  Variables (Base : Z -> R) (Tfwd_pt : X -> Z) (Tfwd_lj : X -> R) (Tinv_pt : Z -> X) (Tinv_lj : Z -> R).
+"""
+
+
+def flows_targets():
+    fwd = {"self.data_transform.forward": Abs("Tfwd", shape="pair"), "self.data_transform.inverse": Abs("Tinv", shape="pair")}
+    fself = lambda: {"dtype": Opaque("dtype"), "device": Opaque("device"), "key": Opaque("key")}
+    T = []
+    zo = dict(fwd)
+    zo.update({"self._flow().log_prob": Abs("Base"), "self.flow().rsample_and_log_prob": Tup([var("zs", "ZV"), V("base_lp")])})
+    T.append(dict(name="zuko_log_prob", module="flows.torch.flows", cls="ZukoFlow", func="log_prob", inputs=[("x", "XV")],
+                  self=fself(), params={"x": var("x", "XV"), "xp": ModV("xp")}, overrides=zo, outputs={"": "return"}))
+    T.append(dict(name="zuko_sample", module="flows.torch.flows", cls="ZukoFlow", func="sample_and_log_prob",
+                  inputs=[("zs", "ZV"), ("base_lp", "V")], self=fself(), params={"n_samples": Opaque("n"), "xp": ModV("xp")},
+                  overrides=zo, outputs={"x": "return[0]", "logq": "return[1]"}))
+    jo = dict(fwd)
+    jo.update({"self._flow.log_prob": Abs("Base"), "jrandom.split": Tup([Opaque("k1"), Opaque("k2")]),
+               "self._flow.sample": var("zs", "ZV")})
+    T.append(dict(name="flowjax_log_prob", module="flows.jax.flows", cls="FlowJax", func="log_prob", inputs=[("x", "XV")],
+                  self=fself(), params={"x": var("x", "XV"), "xp": ModV("xp")}, overrides=jo, outputs={"": "return"}))
+    T.append(dict(name="flowjax_sample", module="flows.jax.flows", cls="FlowJax", func="sample_and_log_prob",
+                  inputs=[("zs", "ZV")], self=fself(), params={"n_samples": Opaque("n"), "xp": ModV("xp")},
+                  overrides=jo, outputs={"x": "return[0]", "logq": "return[1]"}))
+    return T
+
+
+def run_flows(tr, status, irall, meta):
+    chunks = []
+    for spec in flows_targets():
+        name = spec["name"]
+        try:
+            ex, outs = tr.translate(spec)
+            text, ir = emit_defs(name, spec["inputs"], ex, outs, RTABLE, section_types=True)
+            chunks.append(f"(* ---- {spec['module']}.{spec.get('cls')}.{spec['func']} *)\n" + text)
+            irall.update(ir)
+            status[name] = (True, "")
+        except Untranslatable as e:
+            status[name] = (False, f"Untranslatable: {e}")
+        except Exception:
+            status[name] = (False, traceback.format_exc()[-1500:])
+    return "\n".join(chunks)
+
+
 def run_targets(tr, targets, table, status, irall, meta):
     chunks = []
     for spec in targets:
@@ -379,6 +433,9 @@ def build(tr, status):
     body4 = run_transforms(tr, status, ir4, meta4)
     files["Transforms.v"] = TRANSFORMS_HEADER + "\n" + body4 + "\nEnd Transforms.\n"
     files["transforms_ir.json"] = json.dumps({"ir": ir4, "meta": meta4}, indent=0, default=str)
+    ir5, meta5 = {}, {}
+    body5 = run_flows(tr, status, ir5, meta5)
+    files["Flows.v"] = FLOWS_HEADER + "\n" + body5 + "\nEnd Flows.\n"
     files["Routing.v"] = routing_file(tr, status)
     files["Composite.v"] = composite_file(tr, status)
     ir2, meta2 = {}, {}
